@@ -29,19 +29,23 @@ def demo_files(src):
 
 def run_demo(repo, src, meta):
     files = demo_files(src)
+    ddir = meta.get("demo_dir", ".").strip("./") or "."
+    if "internal/hmac" in meta.get("demo_cmd", "") and ddir == ".":
+        ddir = "internal/hmac"
+    target = os.path.join(repo, ddir)
     for f in files:
-        shutil.copy(os.path.join(src, f), os.path.join(repo, f))
+        shutil.copy(os.path.join(src, f), os.path.join(target, f))
     cmd = meta.get("demo_cmd", "")
     # normalise: run the named test in the repo root
     import re
     m = re.search(r"-run[ =]+'?\"?([^ '\"]+)", cmd)
     name = m.group(1) if m else "."
-    args = ["go", "test", "-count=1", "-vet=off", "-run", name, "."]
+    args = ["go", "test", "-count=1", "-vet=off", "-run", name, "./" + ddir]
     if "-race" in cmd:
         args.insert(2, "-race")
     rc, out = sh(args, cwd=repo, timeout=900)
     for f in files:
-        os.remove(os.path.join(repo, f))
+        os.remove(os.path.join(target, f))
     return rc, out
 
 def ingest(src, sid):
